@@ -141,7 +141,15 @@ def sample_twin(spec):
         lls_disk = np.asarray(jd.marginal_ln_likelihood(data, lib, n_batches=2), float)
         res_disk = jd.rejection_sample(data, lib, n_linear_samples=1, n_batches=2)
     phys_disk = physical(res_disk)
-    return dict(acc=acc, lls=lls, mvn=rec.calls("mvn"), margin=float(margin), phys=phys, lls_disk=lls_disk, phys_disk=phys_disk, n=len(data) if not isinstance(data, list) else sum(len(d) for d in data))
+    # the iterative sampler on the same library, in memory and through the cache file, equal seeds
+    it = {}
+    with warnings.catch_warnings():
+        warnings.simplefilter("ignore")
+        for label, kw in (("iterative, in memory", dict(in_memory=True)), ("iterative, cache file", dict())):
+            ji = TheJoker(prior, rng=RecGen(708))
+            ri = ji.iterative_rejection_sample(data, lib, n_requested_samples=3, init_batch_size=8, growth_factor=2, n_linear_samples=1, **kw)
+            it[label] = physical(ri)
+    return dict(iterative=it, acc=acc, lls=lls, mvn=rec.calls("mvn"), margin=float(margin), phys=phys, lls_disk=lls_disk, phys_disk=phys_disk, n=len(data) if not isinstance(data, list) else sum(len(d) for d in data))
 
 
 def compare_twins(spec, base, tw, kind, c):
@@ -176,6 +184,15 @@ def compare_twins(spec, base, tw, kind, c):
             errs.append(f"{kind}, on-disk path: returned {nm} differs physically from the in-memory base run: {base['phys'][nm][:3]} vs {tw['phys_disk'][nm][:3]}")
     if len(tw["phys_disk"]["P"]) != len(base["phys"]["P"]):
         errs.append(f"{kind}, on-disk path: {len(tw['phys_disk']['P'])} rows accepted, in-memory base run accepts {len(base['phys']['P'])}")
+    for label, ph in tw.get("iterative", {}).items():
+        b = base["iterative"][label]
+        if len(ph["P"]) != len(b["P"]):
+            errs.append(f"{kind}, {label}: {len(ph['P'])} rows returned against {len(b['P'])} for the base problem with equal seeds")
+            continue
+        for nm in ("P", "e", "omega", "M0", "s"):
+            if not np.allclose(b[nm], ph[nm], rtol=1e-12, atol=1e-12):
+                errs.append(f"{kind}, {label}: returned {nm} differs physically from the base problem's: {b[nm][:3]} vs {ph[nm][:3]}")
+                break
     sh = (tw["lls_disk"] - base["lls"]) + n * math.log(c)
     if not np.all(np.abs(sh) < 1e-8 * (1 + np.abs(base["lls"]))):
         i = int(np.argmax(np.abs(sh)))
